@@ -17,6 +17,7 @@ def first : Re → Nat → Bool
   | opt a, c => first a c
   | lazyStar a, c => first a c
   | ahead _, _ => false
+  | nahead _ _, _ => false
 
 /-- `canStart r c`: a non-nullable `r` can match at the front of a text starting with `c` only if
 this holds -/
@@ -92,6 +93,12 @@ theorem first_false : ∀ (r : Re) (c : Nat) (s : Text), first r c = false →
     split at ht
     · simpa using ht
     · simp at ht
+  | nahead neg rs =>
+    intro c s _ t ht
+    simp only [ms] at ht
+    split at ht
+    · simp at ht
+    · simpa using ht
 
 theorem canStart_false (r : Re) (c : Nat) (s : Text) (h : canStart r c = false) : ms r (c :: s) = [] := by
   simp only [canStart, Bool.or_eq_false_iff] at h
